@@ -45,6 +45,7 @@ class TheCheck(Check):
 
     def run(self):
         log("[%s] tier=%s seed=%d" % (self.prop, self.tier, self.seed))
+        vlib.regenerate_all(skip=("lock",))
         try:
             self.regenerate()
         except SystemExit as e:
